@@ -95,10 +95,57 @@ def decObj (j : Json) : Except String Obj := do
   | "list" => pure (.list (← decRats j "xs"))
   | _ => throw s!"unknown class {c}"
 
+def natOfJson (j : Json) : Except String Nat :=
+  match j with
+  | .num n => if n.exponent = 0 && 0 ≤ n.mantissa then .ok n.mantissa.toNat else .error "natural number expected"
+  | _ => .error "natural number expected"
+
+def decPObj (j : Json) : Except String PObj := do
+  let o ← decObj (← getObj j "t")
+  pure ⟨o, ← natOfJson (← getObj j "oid"), ← natOfJson (← getObj j "qid")⟩
+
+/-- `[0,i]` hash, `[1,i,j]` comparison, `[2,i,j]` arithmetic, `[3,i]` conversion / copy / pickle / str -/
+def decStirOp (j : Json) : Except String StirOp :=
+  match j with
+  | .arr #[k, i] => do
+    match (← natOfJson k) with
+    | 0 => pure (.hash (← natOfJson i))
+    | 3 => pure (.read (← natOfJson i))
+    | _ => throw "unknown unary stir operation"
+  | .arr #[k, i, i2] => do
+    match (← natOfJson k) with
+    | 1 => pure (.cmp (← natOfJson i) (← natOfJson i2))
+    | 2 => pure (.arith (← natOfJson i) (← natOfJson i2))
+    | _ => throw "unknown binary stir operation"
+  | _ => .error "stir operation expected"
+
+def decQuery (j : Json) : Except String (Nat × Nat) :=
+  match j with
+  | .arr #[i, i2] => do pure (← natOfJson i, ← natOfJson i2)
+  | _ => .error "query pair expected"
+
 def resJ (r : Except ErrKind Bool) : Json :=
   match r with
   | .ok b => .bool b
   | .error e => errJ e
+
+/-- one character per error kind (`runtime` is `n`, the others their initial) -/
+def errC (e : ErrKind) : Char :=
+  match e.name with
+  | "runtime" => 'n'
+  | "validation" => 'd'
+  | s => s.front
+
+def resC (r : Except ErrKind Bool) : Char :=
+  match r with
+  | .ok true => 'T'
+  | .ok false => 'F'
+  | .error e => errC e
+
+def hashC (r : Except ErrKind HKey) : Char :=
+  match r with
+  | .ok _ => 'h'
+  | .error e => errC e
 
 def hashJ (r : Except ErrKind HKey) : Json :=
   match r with
@@ -208,6 +255,28 @@ def handle (j : Json) : Except String Json := do
     let a ← dec (← getObj j "a")
     let b ← dec (← getObj j "b")
     pure (Json.mkObj [("ok", Json.mkObj [("ord", ordJ (fun o => a.order db small o b))])])
+  | "stir" =>
+    -- a pool of objects with identities, a history of operations, then comparisons of pooled objects
+    let small ← getRat j "small"
+    let pool ← (← getArr j "pool").toList.mapM decPObj
+    let ops ← (← getArr j "script").toList.mapM decStirOp
+    let queries ← (← getArr j "queries").toList.mapM decQuery
+    let s := (Session.fresh pool).run ops
+    let (_, codes) := queries.foldl (fun (acc : Session × String) q =>
+      let (s, out) := acc
+      let (ha, s1) := s.hash q.1
+      let (hb, s2) := s1.hash q.2
+      let hkeq := match ha, hb with
+        | .ok x, .ok y => if x == y then '1' else '0'
+        | _, _ => '-'
+      (s2, ((((out.push (resC (s2.eq small q.1 q.2))).push (resC (s2.ne small q.1 q.2))).push (hashC ha)).push
+        (hashC hb)).push hkeq)) (s, "")
+    pure (Json.mkObj [("ok", Json.mkObj [("wf", .bool (poolWF pool)), ("memo", .num s.memo.length),
+      ("pool_kept", .bool (s.pool == pool)), ("codes", .str codes)])])
+  | "basehash" =>
+    -- `AbstractValueWithQuantityObject.__hash__(o)` called explicitly
+    let o ← decObj (← getObj j "a")
+    pure (Json.mkObj [("ok", Json.mkObj [("h", hashJ (absBaseHash o)), ("slot_raises", .bool (o.cls.hashSlot == .raises))])])
   | "badrows" =>
     -- rows of the database that are not well-formed (the hypothesis `AllWF` of the order theorems)
     let db ← dbOf (← getStr j "db")
